@@ -5,6 +5,18 @@ import (
 )
 
 func NativeToObject(val any) Object {
+	return nativeToObject(val, map[visit]bool{})
+}
+
+// visit identifies a pointer, map or slice that is being converted, so
+// that a value which contains itself is found out instead of being
+// followed forever
+type visit struct {
+	ptr    uintptr
+	length int
+}
+
+func nativeToObject(val any, path map[visit]bool) Object {
 	switch v := val.(type) {
 	case string:
 		return &Str{Value: v}
@@ -41,10 +53,31 @@ func NativeToObject(val any) Object {
 	valType := reflect.TypeOf(val)
 
 	switch valType.Kind() {
+	case reflect.Pointer, reflect.Map, reflect.Slice:
+		rv := reflect.ValueOf(val)
+
+		if !rv.IsNil() && (valType.Kind() == reflect.Pointer || rv.Len() > 0) {
+			at := visit{ptr: rv.Pointer()}
+
+			if valType.Kind() != reflect.Pointer {
+				at.length = rv.Len()
+			}
+
+			// a value that contains itself has no finite shape
+			if path[at] {
+				return nil
+			}
+
+			path[at] = true
+			defer delete(path, at)
+		}
+	}
+
+	switch valType.Kind() {
 	case reflect.Struct:
-		return nativeStructToObject(val)
+		return nativeStructToObject(val, path)
 	case reflect.Slice:
-		arr := nativeSliceToArrayObject(convertToInterfaceSlice(val))
+		arr := nativeSliceToArrayObject(convertToInterfaceSlice(val), path)
 
 		// an unsupported element makes the whole value unsupported
 		if arr == nil {
@@ -53,7 +86,7 @@ func NativeToObject(val any) Object {
 
 		return arr
 	case reflect.Map:
-		return nativeMapToObject(val)
+		return nativeMapToObject(val, path)
 	case reflect.Pointer:
 		ptr := reflect.ValueOf(val)
 
@@ -63,13 +96,13 @@ func NativeToObject(val any) Object {
 		}
 
 		// NativeToObject is used recursively to handle pointers
-		return NativeToObject(ptr.Elem().Interface())
+		return nativeToObject(ptr.Elem().Interface(), path)
 	}
 
 	return nil
 }
 
-func nativeMapToObject(val any) Object {
+func nativeMapToObject(val any, path map[visit]bool) Object {
 	obj := &Obj{Pairs: make(map[string]Object)}
 
 	valValue := reflect.ValueOf(val)
@@ -80,7 +113,7 @@ func nativeMapToObject(val any) Object {
 	}
 
 	for _, key := range valValue.MapKeys() {
-		pair := NativeToObject(valValue.MapIndex(key).Interface())
+		pair := nativeToObject(valValue.MapIndex(key).Interface(), path)
 
 		// an unsupported value makes the whole map unsupported
 		if pair == nil {
@@ -109,7 +142,7 @@ func convertToInterfaceSlice(slice any) []any {
 	return ret
 }
 
-func nativeStructToObject(val any) Object {
+func nativeStructToObject(val any, path map[visit]bool) Object {
 	obj := &Obj{Pairs: make(map[string]Object)}
 
 	valType := reflect.TypeOf(val)
@@ -123,7 +156,7 @@ func nativeStructToObject(val any) Object {
 
 		fieldVal := reflect.ValueOf(val).Field(i).Interface()
 
-		pair := NativeToObject(fieldVal)
+		pair := nativeToObject(fieldVal, path)
 
 		// an unsupported field makes the whole struct unsupported
 		if pair == nil {
@@ -136,11 +169,11 @@ func nativeStructToObject(val any) Object {
 	return obj
 }
 
-func nativeSliceToArrayObject(slice []any) *Array {
+func nativeSliceToArrayObject(slice []any, path map[visit]bool) *Array {
 	arr := &Array{}
 
 	for _, val := range slice {
-		elem := NativeToObject(val)
+		elem := nativeToObject(val, path)
 
 		// an unsupported element makes the whole slice unsupported
 		if elem == nil {
